@@ -163,6 +163,8 @@ func (a *Unary) eval(val Value) Value {
 		return OpNot(val)
 	case tok.BitNot:
 		return OpBitNot(val)
+	case tok.Div: // from Folder foldMul e.g. 1 / x
+		return OpDiv(One, val)
 	case tok.LParen:
 		return val
 	}
